@@ -199,8 +199,8 @@ def scenario_to_config(sc):
     """A generated scenario as an MPBCore configuration, or None when it uses something the specification does not model yet."""
     c = sc["cfg"]
     outfault = c.get("outfault") or 0
-    if outfault > 3:
-        return None
+    if outfault > 3 or c.get("uwg"):
+        return None   # (a user wait group changes what Wait waits for: not in the specification)
     names, progs, fault_seen = {}, [], False
     for ci, prog in enumerate(sc["clients"]):
         for o in prog:
@@ -226,7 +226,7 @@ def scenario_to_config(sc):
                     if o["fault"]["kind"] not in ("fill", "ext") or fault_seen or outfault:
                         return None
                     fault_seen = True
-                    if o["fault"]["at"] < 0:
+                    if o["fault"]["at"] <= 0:
                         return None   # "the first Fill after closing": not in the specification's vocabulary
                     fail, failkind = o["fault"]["at"], o["fault"]["kind"]
                 q.append(add(o.get("total", 0), rm=o.get("rm", False), nopop=o.get("nopop", False), after=names.get(o.get("after"), 0),
